@@ -266,3 +266,31 @@ def combinators(ctx):
     got = SB.summary(g.node)
     want = SB.summary_of_source('def func(x, *argz, **kwdz):\n    return f(x, *argz, **kwdz) + penalty(x, *args, **kwds)\n')
     ctx.check(got == want, 'coupler.additive', 'f(x,*argz,**kwdz) + penalty(x,*args,**kwds)', 'additive composes differently: %s' % SB.diff(got, want), g, g.node)
+
+
+@rule('C15.f', min_instances=2)
+def adapters_keep_the_penalty_closure_family(ctx):
+    """with_penalty / as_penalty build their result as `@ptype(condition, *args, **kwds) def penalty(x): return 0.0`: the penalty type is the ONLY decorator (anything applied on top - functools.wraps(condition) copies the condition's __dict__ - can replace the iter/clear/error/store closures the type has just attached), only .func and .ptype are set afterwards, and that function is what is returned"""
+    CN = 'mystic.constraints'
+    for anchor, cond_name in ((CN + ':with_penalty.dec', None), (CN + ':as_penalty', 'rnorm')):
+        f = ctx.func(anchor)
+        inner = [n for n in f.node.body if isinstance(n, ast.FunctionDef) and n.decorator_list]
+        ctx.need(len(inner) == 1, '%s: decorated penalty function not found' % f.qualname)
+        pen = inner[0]
+        cond = cond_name or f.args()[0]
+        want = T.term(ast.parse('ptype(%s, *args, **kwds)' % cond, mode='eval').body)
+        decs = [T.term(d) for d in pen.decorator_list]
+        ctx.check(decs == [want], f.qualname + '#decorators', 'decorated by ptype(%s, *args, **kwds) only' % cond,
+                  '%s decorates its penalty with %s: a decorator applied on top of the penalty type can overwrite the closures (iter, clear, error, store, ...) '
+                  'the type attached' % (f.qualname, [unparse(d) for d in pen.decorator_list]), f, pen)
+        rts = return_terms(pen)
+        ctx.check(bool(rts) and all(x[1] == T.num(0) for x in rts), f.qualname + '#zero', 'the decorated function itself adds nothing (returns 0.0)',
+                  'the function handed to the penalty type returns %s' % ([T.show(x[1]) for x in rts][:1]), f, pen)
+        after = [s for s in f.node.body if s.lineno > pen.lineno]
+        sets = [s for s in after if isinstance(s, ast.Assign) and isinstance(s.targets[0], ast.Attribute) and isinstance(s.targets[0].value, ast.Name) and s.targets[0].value.id == pen.name]
+        extra = [s for s in sets if s.targets[0].attr not in ('func', 'ptype')]
+        other = [s for s in after if s not in sets and not isinstance(s, ast.Return)]
+        rets = [s for s in after if isinstance(s, ast.Return)]
+        good = not extra and not other and len(rets) == 1 and isinstance(rets[0].value, ast.Name) and rets[0].value.id == pen.name
+        ctx.check(good, f.qualname + '#result', 'only .func and .ptype are set; the decorated penalty is returned',
+                  '%s rewrites the decorated penalty after building it (%s)' % (f.qualname, [norm_stmt(s)[:50] for s in (extra + other)][:2]), f, (extra + other + rets + [pen])[0])
